@@ -25,7 +25,7 @@ class _Rec:
         seen = 0
         while hasattr(f, "__wrapped__") and seen < 5:
             f = f.__wrapped__; seen += 1
-        self.funcs[f.__code__] = f
+        self.funcs[(f.__code__.co_filename, f.__code__)] = f      # code objects compare by content, not by file
         return fn
     def enter(self, names):
         fr = sys._getframe(1)
@@ -237,7 +237,7 @@ class ProgGen:
             self.w("        _v = fn(*args, **kwargs)")
             self.w("        R.act('return', _v)")
             self.w("        return _v")
-            self.w("    R.funcs[wrapper.__code__] = wrapper")
+            self.w("    R.funcs[(wrapper.__code__.co_filename, wrapper.__code__)] = wrapper")
             self.w("    return wrapper")
             calls = self.def_plain("wrapped", deco="@deco")
             self.w("R.reg(wrapped)")
